@@ -487,14 +487,8 @@ func Guard(f func()) (kind, frame string, panicked bool) {
 	return
 }
 
-// Watchdog detects a single case that runs far longer than any legitimate one.
-//
-// The limit is NOT a wall-clock oracle. A case is charged "virtual time": wall time scaled by the share of a
-// processor its worker can have had. While the machine has idle processors the share is 1 (a call that does not
-// return — spinning or blocked — is overdue after `limit`). When the machine is saturated (other jobs, other
-// checks) the share is processCPU/(wall*busyWorkers), so a process that is being starved, stopped or stalled does
-// not turn slowness into "non-termination"; a tick that itself arrives late is charged as one tick. A call that
-// really never returns keeps consuming its share and is still reported, only later.
+// Watchdog detects a single case that runs far longer than any legitimate one. Its limit is measured on the
+// virtual clock (VirtualNow), not on the wall clock, so slowness of the machine is never "non-termination".
 type Watchdog struct {
 	slots []wdSlot
 	limit time.Duration
@@ -502,71 +496,23 @@ type Watchdog struct {
 }
 
 type wdSlot struct {
-	start int64 // unix nanos; 0 = idle
+	start int64 // virtual nanos at Begin (never 0 while running); 0 = idle
 	desc  atomic.Value
 	_     [40]byte
 }
 
 // NewWatchdog starts a watchdog over n worker slots; on is called (once) with the
-// descriptor of a case whose virtual running time exceeded limit.
+// descriptor of a case whose running time on the virtual clock exceeded limit.
 func NewWatchdog(n int, limit time.Duration, on func(desc string)) *Watchdog {
 	w := &Watchdog{slots: make([]wdSlot, n), limit: limit, on: on}
+	VirtualNow()
 	go func() {
-		const tick = time.Second
-		last := make([]int64, n)
-		virt := make([]time.Duration, n)
-		prevWall := time.Now()
-		prevCPU := processCPU()
-		prevIdle, prevTotal := systemCPU()
 		for {
-			time.Sleep(tick)
-			now := time.Now()
-			wall := now.Sub(prevWall)
-			prevWall = now
-			cpu := processCPU()
-			cpuDelta := cpu - prevCPU
-			prevCPU = cpu
-			idle, total := systemCPU()
-			idleFrac := -1.0
-			if total > prevTotal {
-				idleFrac = float64(idle-prevIdle) / float64(total-prevTotal)
-			}
-			prevIdle, prevTotal = idle, total
-			busy := 0
-			for i := range w.slots {
-				if atomic.LoadInt64(&w.slots[i].start) != 0 {
-					busy++
-				}
-			}
-			share := 1.0
-			if idleFrac < 0.10 { // saturated (or unknown): we may not be getting the processors we ask for
-				if busy > 0 && wall > 0 {
-					share = float64(cpuDelta) / (float64(wall) * float64(busy))
-				}
-				if share > 1 {
-					share = 1
-				}
-				if share < 0.02 {
-					share = 0.02
-				}
-			}
-			charge := wall
-			if charge > tick+tick/2 { // the tick itself was late: the whole process was not running
-				charge = tick
-			}
-			charge = time.Duration(float64(charge) * share)
+			time.Sleep(time.Second)
+			now := int64(VirtualNow())
 			for i := range w.slots {
 				s := atomic.LoadInt64(&w.slots[i].start)
-				if s == 0 {
-					last[i], virt[i] = 0, 0
-					continue
-				}
-				if s != last[i] {
-					last[i], virt[i] = s, 0
-					continue
-				}
-				virt[i] += charge
-				if virt[i] > limit {
+				if s != 0 && time.Duration(now-s) > limit {
 					d, _ := w.slots[i].desc.Load().(func() string)
 					desc := "?"
 					if d != nil {
@@ -581,12 +527,10 @@ func NewWatchdog(n int, limit time.Duration, on func(desc string)) *Watchdog {
 	return w
 }
 
-var wdSeq int64
-
 // Begin marks slot i as running a case described (lazily) by desc.
 func (w *Watchdog) Begin(i int, desc func() string) {
 	w.slots[i].desc.Store(desc)
-	atomic.StoreInt64(&w.slots[i].start, atomic.AddInt64(&wdSeq, 1)) // a fresh non-zero stamp per case
+	atomic.StoreInt64(&w.slots[i].start, int64(VirtualNow())|1)
 }
 
 // End marks slot i idle.
